@@ -73,6 +73,7 @@ type ActiveLoop struct {
 	Spec    *LoopSpec
 	ID      string
 	Written *WriteSet
+	LogLen  int // length of the ghost call log when the loop was cut
 }
 
 type WriteSet struct {
